@@ -1,4 +1,4 @@
-import MidnightZK.Proofs.C18.SimRun
+import MidnightZK.Proofs.C18.Fail
 import MidnightZK.Gen.C18Tables
 /-!
 # C18 — ZKIR: off-circuit evaluation and the compiled circuit agree on every program
@@ -178,5 +178,49 @@ theorem off_in_agree_fails_for_long_scalars (H : Hashes) :
    [leBytesToNat (List.replicate 32 255) % RJ],
    [leBytesToNat (List.replicate 32 255) % 2 ^ 254, leBytesToNat (List.replicate 32 255) / 2 ^ 254],
    by rfl, by rfl, by rfl, by rfl, by decide⟩
+
+/-- **Off-circuit rejection ⇒ the compiled circuit is not satisfied** (`off_fail_unsat` of the
+design, for *every* error class, hence also the `typing_errors_agree` direction "rejected
+off-circuit ⇒ rejected in-circuit").
+
+If the off-circuit interpreter fails on a program and witness — an assertion, a BigUint
+underflow, a value that does not fit its byte length, an invalid point encoding, a zero modulus,
+but also an unsupported type combination, a missing or ill-typed witness, an unknown or
+duplicated name — then the in-circuit interpreter on the same witness never ends satisfied: it
+returns an error value or at least one emitted constraint is violated by the honest assignment,
+so no public-input vector is bound. Partial only in the hypothesis `RunRegular` (finding N7:
+long Jubjub scalars are excluded because the simulation relation does not hold for them). -/
+theorem off_fail_unsat_partial (H : Hashes) (p : Program) (w : Witness) (e : Err)
+    (hw : WitnessCanonical w) (hreg : RunRegular H w {} p) (h : evalOff H p w = .error e) :
+    ∀ pis, evalIn H p w ≠ .ok (some pis) := by
+  intro pis
+  unfold evalOff at h
+  have h' := (Except.map_err_iff _ _ _).1 h
+  have hinv0 : Inv ({} : OffState) ({} : InState) :=
+    ⟨.nil, rfl, rfl, fun pi h => by simp [encodePI] at h; exact h⟩
+  rcases runFail H w hw p {} {} e hinv0 hreg h' with ⟨e', he'⟩ | ⟨si, hsi, hs⟩
+  · simp [evalIn, he', Except.map]
+  · simp [evalIn, hsi, Except.map, hs]
+
+/-- Non-vacuity, on the design's example of a divergence to be caught (`Sub` on BigUint): the
+program `Load(BigUint(8)) x y; Sub x y -> z; Publish z` with `x = 5`, `y = 6` underflows
+off-circuit and its circuit is unsatisfiable (`ok none`), while with `x = 6` both agree on 0. -/
+example (H : Hashes) :
+    let p : Program := [⟨.load (.big 8), [], ["x", "y"]⟩, ⟨.sub, ["x", "y"], ["z"]⟩, ⟨.publish, ["z"], []⟩]
+    evalOff H p [("x", .big 5), ("y", .big 6)] = .error .underflow ∧
+    evalIn H p [("x", .big 5), ("y", .big 6)] = .ok none ∧
+    evalOff H p [("x", .big 6), ("y", .big 6)] = .ok [.big 0] ∧
+    evalIn H p [("x", .big 6), ("y", .big 6)] = .ok (some [0]) := by
+  refine ⟨?_, ?_, ?_, ?_⟩ <;> rfl
+
+/-- Typing gap in the other direction, kept visible: the in-circuit pass rejects comparisons
+that the off-circuit interpreter evaluates (here `IsEqual` on a Bool and a Native). This is the
+only kind of typing disagreement `off_in_agree_partial` leaves open. -/
+theorem typing_errors_agree_fails_for_comparisons (H : Hashes) :
+    ∃ (p : Program) (w : Witness) (P : List IrValue) (e : Err),
+      evalOff H p w = .ok P ∧ evalIn H p w = .error e ∧ e.isStaticReject = true :=
+  ⟨[⟨.load .bool, [], ["a"]⟩, ⟨.load .native, [], ["b"]⟩, ⟨.isEq, ["a", "b"], ["c"]⟩, ⟨.publish, ["c"], []⟩],
+   [("a", .bool true), ("b", .native 1)], [.bool false], .unsupported .isEq [.bool, .native],
+   by rfl, by rfl, by rfl⟩
 
 end MidnightZK.C18
